@@ -722,6 +722,11 @@ def c16_streams(ctx):
         for s in ["", "a", "ab"]:
             cs = [Case(p, "", api, s, repl) for api, repl in apis] + [Case(p, "", "is_match", "")]
             gs.append(Group(cs, {"features": {"rep_nullable_body"} if False else set(), "input": s, "flags": ""}))
+    # the empty literal pattern under flag q matches the empty string like any other nullable regex
+    for f in ["q", "qi", "qx", "qs"]:
+        for s in ["", "a", "ab"]:
+            cs = [Case("", f, api, s, repl) for api, repl in apis] + [Case("", f, "is_match", "")]
+            gs.append(Group(cs, {"features": set(), "input": s, "flags": f}))
     return gs
 
 
